@@ -688,11 +688,22 @@ func (m *Machine) pickIndex(idx *Term, n int) int {
 // boundsCheck makes the path panic if idx can be outside [0,n).
 func (m *Machine) boundsCheck(idx *Term, n int, signed bool) {
 	w := idx.Sort.W
-	var oob *Term
+	// the largest value the index type can hold
+	maxVal := uint64(1)<<uint(w-1) - 1
+	if !signed {
+		maxVal = mask(w)
+	}
+	upper := m.ts.Bool(false)
+	if uint64(n) <= maxVal {
+		if signed {
+			upper = m.ts.BVCmp(OpSle, m.ts.BVConst(uint64(n), w), idx)
+		} else {
+			upper = m.ts.BVCmp(OpUle, m.ts.BVConst(uint64(n), w), idx)
+		}
+	}
+	oob := upper
 	if signed {
-		oob = m.ts.Or(m.ts.BVCmp(OpSlt, idx, m.ts.BVConst(0, w)), m.ts.BVCmp(OpSle, m.ts.BVConst(uint64(n), w), idx))
-	} else {
-		oob = m.ts.BVCmp(OpUle, m.ts.BVConst(uint64(n), w), idx)
+		oob = m.ts.Or(m.ts.BVCmp(OpSlt, idx, m.ts.BVConst(0, w)), upper)
 	}
 	if n == 0 || m.branch(oob) {
 		m.tpanic("runtime error: index out of range [symbolic] with length %d", n)
@@ -707,7 +718,11 @@ func isSignedVal(v value) bool {
 	return false
 }
 
-func (m *Machine) indexAddr(x, idx value) value {
+func (m *Machine) indexAddr(x, idx value, idxT types.Type) value {
+	signed := true
+	if bi, ok := infoOf(idxT); ok {
+		signed = bi.signed
+	}
 	var elems []value
 	switch x := x.(type) {
 	case []value:
@@ -720,8 +735,8 @@ func (m *Machine) indexAddr(x, idx value) value {
 		panic(fmt.Sprintf("unexpected x type in IndexAddr: %T", x))
 	}
 	if t, ok := idx.(*Term); ok {
-		m.boundsCheck(t, len(elems), true)
-		return &symAddr{elems: elems, idx: t, signed: true}
+		m.boundsCheck(t, len(elems), signed)
+		return &symAddr{elems: elems, idx: t, signed: signed}
 	}
 	i := asInt64(idx)
 	if i < 0 || i >= int64(len(elems)) {
@@ -730,11 +745,15 @@ func (m *Machine) indexAddr(x, idx value) value {
 	return &elems[i]
 }
 
-func (m *Machine) index(x, idx value, elemT types.Type) value {
+func (m *Machine) index(x, idx value, elemT types.Type, idxT types.Type) value {
+	signed := true
+	if bi, ok := infoOf(idxT); ok {
+		signed = bi.signed
+	}
 	switch x := x.(type) {
 	case array:
 		if t, ok := idx.(*Term); ok {
-			m.boundsCheck(t, len(x), true)
+			m.boundsCheck(t, len(x), signed)
 			return m.loadAddr(elemT, &symAddr{elems: x, idx: t})
 		}
 		i := asInt64(idx)
@@ -745,7 +764,7 @@ func (m *Machine) index(x, idx value, elemT types.Type) value {
 	case string, sstr:
 		b := strBytes(x)
 		if t, ok := idx.(*Term); ok {
-			m.boundsCheck(t, len(b), true)
+			m.boundsCheck(t, len(b), signed)
 			return m.fromTerm(m.exactIteChain(&symAddr{elems: b, idx: t}), types.Typ[types.Uint8])
 		}
 		i := asInt64(idx)
@@ -938,7 +957,7 @@ func (m *Machine) lookup(instr *ssa.Lookup, x, idx value) value {
 		}
 		return v
 	case string, sstr:
-		return m.index(x, idx, types.Typ[types.Uint8])
+		return m.index(x, idx, types.Typ[types.Uint8], instr.Index.Type())
 	}
 	panic(fmt.Sprintf("unexpected x type in Lookup: %T", x))
 }
